@@ -59,14 +59,16 @@ func (g *gen) Generate(typs []types.Type) error {
 	if !ok {
 		return fmt.Errorf("%s, the first argument, %s, is not of type map", g.GetFuncName(typ), typ)
 	}
-	return g.genFuncFor(mapType)
+	return g.genFuncFor(typ, mapType)
 }
 
-func (g *gen) genFuncFor(typ *types.Map) error {
+// genFuncFor generates the function for the requested type, which may be a named map type:
+// the function is looked up under that type, not under the map type it is defined as.
+func (g *gen) genFuncFor(requested types.Type, typ *types.Map) error {
 	p := g.printer
-	g.Generating(typ)
-	name := g.GetFuncName(typ)
-	typeStr := g.TypeString(typ)
+	g.Generating(requested)
+	name := g.GetFuncName(requested)
+	typeStr := g.TypeString(requested)
 	keyType := typ.Key()
 	keyTypeStr := g.TypeString(keyType)
 	p.P("")
